@@ -24,7 +24,7 @@ def gen_cases(ctx):
         for p in periods:
             pp = max(p, 1)
             for mult in (0, 1, 3):
-                lvl = r.choice(LEVELS)
+                lvl = r.choice(LEVELS + [r.uniform(1, 100), r.uniform(0.01, 1000), float(r.randint(2, 999)) / 7.0])
                 k = nper(ind)
                 pr = (p if k >= 1 else 0, r.choice([1, 3]) if k >= 2 else 0, r.choice([1, 2]) if k >= 3 else 0, 2.0 if ind in HAS_MULT else 0.0)
                 npre = mult * pp
@@ -33,12 +33,19 @@ def gen_cases(ctx):
                 vol = r.choice([0.0, 5.0])
                 if bars:
                     pre = [("b", 0) + b for b in bar_stream(r, npre, r.choice(["walk", "segments", "gaps"]), p=pp)]
-                    fl = [("b", 0, lvl, lvl, lvl, lvl, vol)] * flen
                 else:
                     pre = [("n", 0, x * lvl) for x in scalar_stream(r, npre, r.choice(["walk", "uniform", "ties", "segments"]), p=pp, positive=True)]
-                    fl = [("n", 0, lvl)] * flen
+                # several flat stretches at different levels one after the other: each is "a flat stretch after earlier activity"
+                stretches = []
+                fl = []
+                start = npre
+                for si in range(3 if flen <= 200 else 1):
+                    l_ = lvl if si == 0 else r.choice([r.uniform(1, 100), r.uniform(0.01, 1000), float(r.randint(2, 999)) / 7.0, r.choice(LEVELS)])
+                    fl += [("b", 0, l_, l_, l_, l_, vol)] * flen if bars else [("n", 0, l_)] * flen
+                    stretches.append((start, flen, l_))
+                    start += flen
                 cases.append(Case("%s_p%d_pre%d_%d" % (ind, p, mult, len(cases)), [new_op(0, ind, pr)] + pre + fl, dump=(),
-                                  meta={"ind": ind, "p": pp, "npre": npre, "flen": flen, "lvl": lvl, "bars": bars, "vol": vol}))
+                                  meta={"ind": ind, "p": pp, "npre": npre, "flen": flen, "lvl": lvl, "bars": bars, "vol": vol, "stretches": stretches}))
     return cases
 
 
@@ -63,7 +70,8 @@ def check_impl(ctx, cases):
         for o in c.ops[1:]:
             vals += [abs(x) for x in (o[2:3] if o[0] == "n" else o[3:6])]
         M = max(vals + [1e-300])
-        for j in range(flen):
+        for (sstart, slen, lvl), j in [(st_, j_) for st_ in c.meta["stretches"] for j_ in range(st_[1])]:
+            npre = sstart
             t = npre + j + 1
             degenerate = (j + 1 >= (need or 1))
             if not degenerate:
